@@ -181,6 +181,9 @@ def gen_acl_case(rng, platform):
             desc = dict(rng.choice(descs))
         descs.append(desc)
         lines.append(sc.compose(desc, platform))
+    if rng.random() < 0.25:
+        nums = rng.sample(range(1, 500), len(lines))  # fully numbered, numbers in no particular order
+        lines = [f"{n} {ln}" for n, ln in zip(nums, lines)]
     text = grammar.acl_header(platform, "X1") + "\n" + "\n".join("  " + ln for ln in lines)
     return {"k": "acl", "platform": platform, "text": text, "group_by": heading,
             "skip": rng.choice([None, None, [], ["addrgroup"], ["nc_wildcard"], ["addrgroup", "nc_wildcard"]]),
